@@ -48,7 +48,13 @@ pub fn image_of(env: &mut Env, leaf: &Leaf) -> Option<(Image, Obs)> {
     res.ok().flatten()
 }
 
-pub fn fault_leaf(env: &mut Env, leaf: &Leaf, damage_variant: bool) {
+/// `variant`: 0 = the image as written; 1 = one byte flipped in the second block of the first file
+/// (block skipping on the recovery path); 2 / 3 = first file cut to 0 / half a block (a real short
+/// read at the first block; when open reports it there is nothing more to ask); 4 = the image
+/// replaced by a single empty `wal-0` (the state a crash between creating and sizing the very
+/// first file leaves).
+pub fn fault_leaf(env: &mut Env, leaf: &Leaf, variant: u8) {
+    let damage_variant = variant == 1;
     let Some((mut image, _obs)) = image_of(env, leaf) else {
         env.stats.diverged += 1;
         return;
@@ -63,6 +69,21 @@ pub fn fault_leaf(env: &mut Env, leaf: &Leaf, damage_variant: bool) {
             }
         }
     }
+    match variant {
+        2 | 3 => {
+            if let Some((_, bytes)) = image.iter_mut().next() {
+                bytes.truncate(if variant == 2 { 0 } else { BLOCK / 2 });
+            }
+        }
+        4 => {
+            let first = image.keys().next().cloned();
+            if let Some(first) = first {
+                image.clear();
+                image.insert(first, vec![]);
+            }
+        }
+        _ => {}
+    }
     let dir = env.scratch2.path.clone();
     // fault-free run: count the calls
     set_image(&dir, &image);
@@ -72,14 +93,22 @@ pub fn fault_leaf(env: &mut Env, leaf: &Leaf, damage_variant: bool) {
     let base_ticks = vh::ticks();
     let baseline = match ok {
         Ok(Ok(obs)) => obs,
+        Ok(Err(ReadRecordError::IoError(_))) if variant >= 2 => {
+            // the short first file is itself reported as an I/O error
+            env.stats.count("short_first_file_reported_as_io_error", 1);
+            return;
+        }
         _ => {
             env.stats.diverged += 1;
             return;
         }
     };
-    env.stats.state(&(hash_of(&baseline), image.len(), damage_variant));
+    if variant >= 2 {
+        env.stats.count("short_first_file_accepted_(faults_injected_on_top)", 1);
+    }
+    env.stats.state(&(hash_of(&baseline), image.len(), variant));
     let budget = base_ticks * 10 + 1000;
-    env.stats.sample(|| json!({"engine": "fault", "seed": leaf.seed.name, "ops": leaf.ops.iter().map(|o| o.short()).collect::<Vec<_>>(), "damaged_block": damage_variant, "wal_files": image.len(),
+    env.stats.sample(|| json!({"engine": "fault", "seed": leaf.seed.name, "ops": leaf.ops.iter().map(|o| o.short()).collect::<Vec<_>>(), "damaged_block": damage_variant, "image_variant": variant, "wal_files": image.len(),
         "recovery_calls": {"read_dir": counts[CallKind::ReadDir as usize], "open": counts[CallKind::Open as usize], "read": counts[CallKind::Read as usize]}, "fault_free_ticks": base_ticks}));
     for (kind, kind_name) in KINDS {
         let n_calls = counts[kind as usize];
@@ -102,8 +131,8 @@ pub fn fault_leaf(env: &mut Env, leaf: &Leaf, damage_variant: bool) {
                     let fired = vh::faults_fired();
                     vh::set_fault(None);
                     vh::set_tick_budget(BIG_TICKS);
-                    env.stats.nontrivial(&(kind_name, nth, forever, ek_name, image.len(), damage_variant, hash_of(&baseline)));
-                    let case = json!({"engine":"fault","seed_name":leaf.seed.name,"seed_ops":leaf.seed.ops,"ops":leaf.ops,"damaged_block":damage_variant,
+                    env.stats.nontrivial(&(kind_name, nth, forever, ek_name, image.len(), variant, hash_of(&baseline)));
+                    let case = json!({"engine":"fault","seed_name":leaf.seed.name,"seed_ops":leaf.seed.ops,"ops":leaf.ops,"damaged_block":damage_variant,"image_variant":variant,
                         "fault":{"call_kind":kind_name,"nth":nth,"mode": if forever {"forever"} else {"once"},"error":ek_name},"files":image.len(),"fault_free_ticks":base_ticks});
                     if fired == 0 {
                         env.stats.count("plans_that_never_fired", 1);
